@@ -78,4 +78,15 @@ PROPS = {
         'level_text': 'Order embedding + self-delimitation (Strong) is a Lean theorem for every element type and direction of the field-numbered format (u32/u64/i32/i64 both directions, strings ascending) and of the compact format (u64, i64, byte strings), lifted to tagged fields and to whole tuples (tuple_order, compact_tuple_order) with both halves of prefix contiguity; the typed parsers of both formats return the tuple that was written (tuple_roundtrip, compact_roundtrip). Descending strings are false as stated (D-20): the failing pairs are characterised exactly by a decidable predicate ContTie (string_desc_tie_ascending / string_desc_partial / string_pairs_dichotomy). The models are tied to both crates by byte-exact comparison of encodings, of typed-parser results (values and error kinds) on intact and hostile buffers, and of the schema-free walk; discriminants, signed offsets, field-number limits and compact tags are regenerated from the source each run.',
         'level_note': 'Trusted: Lean kernel; axioms propext, Classical.choice, Quot.sound; Blue.Utf8.valid as the model of String::from_utf8; correspondence is agreement on generated cases only (decoders never panic: observed, not proved — the model decoders are total functions and a panic is an oracle failure). string_desc_partial is weaker than the property by exactly the D-20 class.',
     },
+    'C05': {
+        'trusted': ['nom 7.1.3 combinator semantics (tag, multispace0, digit1, opt, recognize, map_res, cut, context, alt, separated_list0, terminated, all_consuming with VerboseError) as transcribed in Blue/Model/GcParse.lean, tied by the printed error-chain correspondence on curated, generated and mutated policy texts'],
+        'assumptions': [
+            'cursor-level half: the inputs of one compaction are sorted tables whose (key, timestamp) pairs are unique across the inputs (sequence numbers, C01/C06); the conservation theorems take a strict total order on entries',
+            'the tombstone handling of the collector (a tombstone kept only with the value below it, trailing tombstones dropped) is sound only when the output level is the last level (lsmtk: Compaction::top_level); that GC runs only there is the tree-level half of C05',
+            'policy numbers are non-zero (NonZeroU64 in the code; hypothesis Policy.WF of gc_runs_every_policy); the u64 counter of VersionsDeterminer does not overflow (needs 2^63 versions of one key)',
+        ],
+        'partial': [],
+        'level_text': 'GarbageCollector::next over the Versions/Expires/Any/All determiner tree (now a parameter), the nom policy parser incl. its printed error chain, and the compaction loop over the merging-cursor model cut into output files are executable Lean models.  Theorems (Blue.Props.C05): for EVERY policy, now and input the collector output is a sub-list of its input; the determiner calls depend on the input alone and any(..)/all(..) decide pointwise as union/intersection of their members; on sorted input the collector works key by key with a fresh determiner (carried state and the initial vec![] key are harmless); per key the retained set is a prefix: either the key keeps its newest value under the oldest tombstone above it, or the whole key goes; the newest value is kept by every policy that selects newest versions (versions>=1; ttl at now<=micros, always so in lsmtk where now=0 is regenerated from source; any with such a member; all of such members); keys with only tombstones are dropped; plus the versions=N theorems gc_runs/newest_value_kept/tombstone_stays/gcGroup_exhausted.  Non-GC compaction: the compaction loop over the merging-cursor model reads exactly the merged list M (merged_is_M, from merging_refines), cutting M at ANY cut vector and concatenating is a permutation of the union of the inputs (pipeline_conserves, compaction_conserves, children_perm_merged, cut_flatten), hence reads at every timestamp are unchanged (compaction_reads_unchanged).  Correspondence: parse results and error chains, retained (key,ts) lists, and output files byte-compared on seeded cases through ReferenceCursor, MergingCursor<ReferenceCursor> and real SSTs -> MergingCursor<SstCursor> -> lsmtk\'s GC loop -> SstMultiBuilder.  Oracle (independent of the model): the definitional reading of the policy language (versions = values + oldest tombstone of each run; N newest / fresher than threshold / union / intersection; then tombstones that shadow nothing retained are dropped), a hand-written grammar for the parser, sub-list, current value of every key unchanged whenever the policy selects newest versions, discard setsum = sum of framings of dropped entries, inputs = outputs + discard; for splits: multiset of (key,ts,value|tombstone) conserved, outputs sorted, ranges ordered, per-file setsum = content.',
+        'level_note': 'Trusted: Lean kernel; axioms propext, Classical.choice, Quot.sound; the nom semantics transcription; correspondence is agreement on generated cases only.  Observations (not defects under the property statement): O-3 lsmtk passes now=0 so ttl policies never expire; any()/any(,)/all() parse, and any() discards every entry including current values; trailing input after a policy yields a ParseError whose text is empty; "versions = N" keeps at most N versions and fewer when a tombstone+value pair does not fit (the dropped tombstone shadows nothing at the last level).',
+    },
 }
